@@ -1,2 +1,250 @@
-(* C06 statements; proofs in Proofs/. *)
-From BaoV Require Import Model.Fsm Spec.EncSpec.
+(* C06 - the validators report exactly the chunk groups that are touched by the query and verify against
+   the stored outboard (and data), and what verifies is the blob.  Statements only; proofs and the
+   definitions of the predicates in Proofs/Val*.v:
+     stored_pair ob nd            the pair load_sync returns for node nd (None: no slot)
+     grp_start bs ga, grp_end size bs ga   first / end chunk of chunk group ga
+     top_path size bs ga          the stored-pair nodes from the root of the Shape down to group ga, with sides
+     touched / chain_ok / leaf_ok the three predicates (heq x y := bytes_eqb x y = true)
+     val_spec                     recursive mirror of validate_rec over the Shape;  val_top = val_spec at the root
+     grp_verdict                  boolean: chain and leaf of one group verify
+     path_true data bs ob ga      every stored pair on the path of ga is the blob's true pair
+     loads_ok ob size bs          no load of a node of the tree (sp_pre_nodes size bs) fails. *)
+From BaoV Require Import Model.Sync Model.Fsm Spec.EncSpec Spec.HashAssm.
+From BaoV Require Import Proofs.PlanBase Proofs.PlanNav Proofs.DecHash
+  Proofs.ValSpec Proofs.ValPath Proofs.ValTrue Proofs.ValTop Proofs.ValSound.
+
+(* ---- 1. exact output ---- *)
+(* the recursive specification: one step of val_spec *)
+Theorem C06_val_spec_step : forall (HO : hops) f wd (ob : outboard HO) (d : bytes HO) size bs Sel ga n owed is_root,
+  val_spec HO (S f) wd ob d size bs Sel ga n owed is_root =
+    if negb (touchedn Sel size bs ga n) then []
+    else if n <=? 1 then leaf_rep HO wd d size bs ga owed is_root
+    else
+      match stored_pair HO ob (unshift bs (sid ga n)) with
+      | None => []
+      | Some (l, r) =>
+          if negb (bytes_eqb HO (parent_cv HO l r is_root) owed) then []
+          else if n <=? 2 then
+            (if touchedn Sel size bs ga 1 then leaf_rep HO wd d size bs ga l false else [])
+            ++ (if touchedn Sel size bs (ga + 1) 1 then leaf_rep HO wd d size bs (ga + 1) r false else [])
+          else
+            let half := capof n / 2 in
+            val_spec HO f wd ob d size bs Sel ga half l false
+            ++ val_spec HO f wd ob d size bs Sel (ga + half) (n - half) r false
+      end.
+Proof. exact val_spec_eq. Qed.
+Print Assumptions C06_val_spec_step.
+
+Theorem C06_data_spec : forall (HO : hops) (size bs : N) (q : ranges) (ob : outboard HO),
+  size <= 2 ^ 63 -> bs <= 10 -> wf_ranges q = true ->
+  ob_tree ob = mkTree size bs -> loads_ok HO ob size bs ->
+  forall d : bytes HO, blen HO d = size -> 2 <= sp_blocks size bs ->
+  valid_ranges HO ob d q = (val_top HO true ob d size bs q, Ok tt).
+Proof. exact data_exact. Qed.
+Print Assumptions C06_data_spec.
+
+(* the reported list, in increasing order of the groups *)
+Theorem C06_data_exact : forall (HO : hops) (size bs : N) (q : ranges) (ob : outboard HO),
+  size <= 2 ^ 63 -> bs <= 10 -> wf_ranges q = true ->
+  ob_tree ob = mkTree size bs -> loads_ok HO ob size bs ->
+  forall d : bytes HO, blen HO d = size -> 2 <= sp_blocks size bs ->
+  valid_ranges HO ob d q =
+  (flat_map (fun ga => if touchedb q size bs ga && grp_verdict HO true ob d size bs ga
+                       then [(grp_start bs ga, grp_end size bs ga)] else [])
+            (chunk_range_list 0 (sp_blocks size bs)), Ok tt).
+Proof. exact data_exact_groups. Qed.
+Print Assumptions C06_data_exact.
+
+Theorem C06_touched : forall q size bs ga, touchedb q size bs ga = true <-> touched q size bs ga.
+Proof. exact touched_iff. Qed.
+Print Assumptions C06_touched.
+
+Theorem C06_verdict : forall (HO : hops) (size bs : N) (ob : outboard HO) (wd : bool) (d : bytes HO) (ga : N),
+  2 <= sp_blocks size bs ->
+  grp_verdict HO wd ob d size bs ga = true <->
+  chain_ok HO ob size bs ga /\ (wd = true -> leaf_ok HO d ob size bs ga).
+Proof. exact grp_verdict_iff. Qed.
+Print Assumptions C06_verdict.
+
+(* membership in the output of the specification by the three predicates (wd = true: with data) *)
+Theorem C06_data_member : forall (HO : hops) (size bs : N) (q : ranges) (ob : outboard HO),
+  size <= 2 ^ 63 ->
+  forall (wd : bool) (d : bytes HO) (a e : N), 2 <= sp_blocks size bs ->
+  In (a, e) (val_top HO wd ob d size bs q) <->
+  exists ga, ga < sp_blocks size bs /\ a = grp_start bs ga /\ e = grp_end size bs ga /\
+             touched q size bs ga /\ chain_ok HO ob size bs ga /\ (wd = true -> leaf_ok HO d ob size bs ga).
+Proof. exact val_top_member. Qed.
+Print Assumptions C06_data_member.
+
+(* a single group: reported iff the data hashes to the root, whatever the query *)
+Theorem C06_data_single : forall (HO : hops) (size bs : N) (q : ranges) (ob : outboard HO),
+  ob_tree ob = mkTree size bs ->
+  forall d : bytes HO, blen HO d = size -> sp_blocks size bs = 1 ->
+  valid_ranges HO ob d q =
+  ((if bytes_eqb HO (hash_subtree HO 0 d true) (ob_root ob) then [(0, chunks size)] else []), Ok tt).
+Proof. exact data_single. Qed.
+Print Assumptions C06_data_single.
+
+(* under the hash assumptions heq is equality *)
+Theorem C06_heq : forall (HO : hops), hash_ok HO -> forall x y : hash HO, heq HO x y <-> x = y.
+Proof. exact bytes_eqb_eq. Qed.
+Print Assumptions C06_heq.
+
+(* chain_walk (the boolean walk used by grp_verdict) against the two predicates *)
+Theorem C06_chain_walk : forall (HO : hops) (ob : outboard HO) p owed ir h,
+  chain_walk HO ob p owed ir = Some h <-> chain_prop HO ob p owed ir /\ owed_walk HO ob p (Some owed) = Some h.
+Proof. exact chain_walk_iff. Qed.
+Print Assumptions C06_chain_walk.
+
+(* ---- 2. what is reported is the blob ---- *)
+Theorem C06_reported_is_true : forall (HO : hops), hash_ok HO ->
+  forall (data : bytes HO) (bs : N) (ob : outboard HO),
+  blen HO data <= 2 ^ 63 -> bs <= 10 -> ob_root ob = root_hash HO data ->
+  forall q : ranges, wf_ranges q = true ->
+  ob_tree ob = mkTree (blen HO data) bs -> loads_ok HO ob (blen HO data) bs ->
+  forall (d : bytes HO) (a e : N), blen HO d = blen HO data -> 2 <= sp_blocks (blen HO data) bs ->
+  In (a, e) (fst (valid_ranges HO ob d q)) ->
+  chunk_bytes HO d a e = chunk_bytes HO data a e /\
+  exists ga, ga < sp_blocks (blen HO data) bs /\ a = grp_start bs ga /\ e = grp_end (blen HO data) bs ga /\
+             path_true HO data bs ob ga.
+Proof. exact reported_is_true. Qed.
+Print Assumptions C06_reported_is_true.
+
+Theorem C06_chain_ok_true : forall (HO : hops), hash_ok HO ->
+  forall (data : bytes HO) (bs : N) (ob : outboard HO),
+  blen HO data <= 2 ^ 63 -> bs <= 10 -> ob_root ob = root_hash HO data ->
+  forall ga, ga < sp_blocks (blen HO data) bs ->
+  chain_ok HO ob (blen HO data) bs ga -> path_true HO data bs ob ga.
+Proof. exact chain_ok_true. Qed.
+Print Assumptions C06_chain_ok_true.
+
+Theorem C06_leaf_ok_true : forall (HO : hops), hash_ok HO ->
+  forall (data : bytes HO) (bs : N) (ob : outboard HO),
+  blen HO data <= 2 ^ 63 -> bs <= 10 -> ob_root ob = root_hash HO data ->
+  forall (d : bytes HO) ga, ga < sp_blocks (blen HO data) bs -> blen HO d = blen HO data ->
+  chain_ok HO ob (blen HO data) bs ga -> leaf_ok HO d ob (blen HO data) bs ga ->
+  chunk_bytes HO d (grp_start bs ga) (grp_end (blen HO data) bs ga)
+  = chunk_bytes HO data (grp_start bs ga) (grp_end (blen HO data) bs ga).
+Proof. exact leaf_ok_true. Qed.
+Print Assumptions C06_leaf_ok_true.
+
+Theorem C06_single_reported_is_true : forall (HO : hops), hash_ok HO ->
+  forall (data : bytes HO) (bs : N) (ob : outboard HO),
+  blen HO data <= 2 ^ 63 -> bs <= 10 -> ob_root ob = root_hash HO data ->
+  forall q : ranges, ob_tree ob = mkTree (blen HO data) bs ->
+  forall d : bytes HO, blen HO d = blen HO data -> sp_blocks (blen HO data) bs = 1 ->
+  fst (valid_ranges HO ob d q) <> [] -> d = data.
+Proof. exact single_reported_is_true. Qed.
+Print Assumptions C06_single_reported_is_true.
+
+(* ---- 3. what is the blob and touched is reported ---- *)
+Theorem C06_valid_is_reported : forall (HO : hops), hash_ok HO ->
+  forall (data : bytes HO) (bs : N) (ob : outboard HO),
+  blen HO data <= 2 ^ 63 -> bs <= 10 -> ob_root ob = root_hash HO data ->
+  forall q : ranges, wf_ranges q = true ->
+  ob_tree ob = mkTree (blen HO data) bs -> loads_ok HO ob (blen HO data) bs ->
+  forall (d : bytes HO) (ga : N), blen HO d = blen HO data -> 2 <= sp_blocks (blen HO data) bs ->
+  ga < sp_blocks (blen HO data) bs ->
+  touched q (blen HO data) bs ga -> path_true HO data bs ob ga ->
+  chunk_bytes HO d (grp_start bs ga) (grp_end (blen HO data) bs ga)
+  = chunk_bytes HO data (grp_start bs ga) (grp_end (blen HO data) bs ga) ->
+  In (grp_start bs ga, grp_end (blen HO data) bs ga) (fst (valid_ranges HO ob d q)).
+Proof. exact valid_is_reported. Qed.
+Print Assumptions C06_valid_is_reported.
+
+(* an intact store: exactly the touched groups *)
+Theorem C06_intact_complete : forall (HO : hops), hash_ok HO ->
+  forall (data : bytes HO) (bs : N) (ob : outboard HO),
+  blen HO data <= 2 ^ 63 -> bs <= 10 -> ob_root ob = root_hash HO data ->
+  forall q : ranges, wf_ranges q = true ->
+  ob_tree ob = mkTree (blen HO data) bs -> loads_ok HO ob (blen HO data) bs ->
+  2 <= sp_blocks (blen HO data) bs ->
+  (forall ga, ga < sp_blocks (blen HO data) bs -> path_true HO data bs ob ga) ->
+  valid_ranges HO ob data q =
+  (flat_map (fun ga => if touchedb q (blen HO data) bs ga
+                       then [(grp_start bs ga, grp_end (blen HO data) bs ga)] else [])
+            (chunk_range_list 0 (sp_blocks (blen HO data) bs)), Ok tt).
+Proof. exact intact_complete. Qed.
+Print Assumptions C06_intact_complete.
+
+Theorem C06_single_intact : forall (HO : hops), hash_ok HO ->
+  forall (data : bytes HO) (bs : N) (ob : outboard HO),
+  blen HO data <= 2 ^ 63 -> ob_root ob = root_hash HO data ->
+  forall q : ranges, ob_tree ob = mkTree (blen HO data) bs ->
+  sp_blocks (blen HO data) bs = 1 ->
+  valid_ranges HO ob data q = ([(0, chunks (blen HO data))], Ok tt).
+Proof. exact single_valid_is_reported. Qed.
+Print Assumptions C06_single_intact.
+
+(* ---- 4. outboard only, and the fsm twins ---- *)
+Theorem C06_outboard_spec : forall (HO : hops) (size bs : N) (q : ranges) (ob : outboard HO),
+  size <= 2 ^ 63 -> bs <= 10 -> wf_ranges q = true ->
+  ob_tree ob = mkTree size bs -> loads_ok HO ob size bs -> 2 <= sp_blocks size bs ->
+  valid_outboard_ranges HO ob q = (val_top HO false ob [] size bs q, Ok tt).
+Proof. exact outboard_exact. Qed.
+Print Assumptions C06_outboard_spec.
+
+Theorem C06_outboard_exact : forall (HO : hops) (size bs : N) (q : ranges) (ob : outboard HO),
+  size <= 2 ^ 63 -> bs <= 10 -> wf_ranges q = true ->
+  ob_tree ob = mkTree size bs -> loads_ok HO ob size bs -> 2 <= sp_blocks size bs ->
+  valid_outboard_ranges HO ob q =
+  (flat_map (fun ga => if touchedb q size bs ga && grp_verdict HO false ob [] size bs ga
+                       then [(grp_start bs ga, grp_end size bs ga)] else [])
+            (chunk_range_list 0 (sp_blocks size bs)), Ok tt).
+Proof. exact outboard_exact_groups. Qed.
+Print Assumptions C06_outboard_exact.
+
+Theorem C06_outboard_single : forall (HO : hops) (size bs : N) (q : ranges) (ob : outboard HO),
+  ob_tree ob = mkTree size bs -> sp_blocks size bs = 1 ->
+  valid_outboard_ranges HO ob q = ([(0, chunks size)], Ok tt).
+Proof. exact outboard_single. Qed.
+Print Assumptions C06_outboard_single.
+
+Theorem C06_outboard_reported_is_true : forall (HO : hops), hash_ok HO ->
+  forall (data : bytes HO) (bs : N) (ob : outboard HO),
+  blen HO data <= 2 ^ 63 -> bs <= 10 -> ob_root ob = root_hash HO data ->
+  forall q : ranges, wf_ranges q = true ->
+  ob_tree ob = mkTree (blen HO data) bs -> loads_ok HO ob (blen HO data) bs ->
+  forall a e : N, 2 <= sp_blocks (blen HO data) bs ->
+  In (a, e) (fst (valid_outboard_ranges HO ob q)) ->
+  exists ga, ga < sp_blocks (blen HO data) bs /\ a = grp_start bs ga /\ e = grp_end (blen HO data) bs ga /\
+             path_true HO data bs ob ga.
+Proof. exact outboard_reported_is_true. Qed.
+Print Assumptions C06_outboard_reported_is_true.
+
+Theorem C06_outboard_valid_is_reported : forall (HO : hops), hash_ok HO ->
+  forall (data : bytes HO) (bs : N) (ob : outboard HO),
+  blen HO data <= 2 ^ 63 -> bs <= 10 -> ob_root ob = root_hash HO data ->
+  forall q : ranges, wf_ranges q = true ->
+  ob_tree ob = mkTree (blen HO data) bs -> loads_ok HO ob (blen HO data) bs ->
+  forall ga : N, 2 <= sp_blocks (blen HO data) bs -> ga < sp_blocks (blen HO data) bs ->
+  touched q (blen HO data) bs ga -> path_true HO data bs ob ga ->
+  In (grp_start bs ga, grp_end (blen HO data) bs ga) (fst (valid_outboard_ranges HO ob q)).
+Proof. exact outboard_valid_is_reported. Qed.
+Print Assumptions C06_outboard_valid_is_reported.
+
+Theorem C06_outboard_intact_complete : forall (HO : hops), hash_ok HO ->
+  forall (data : bytes HO) (bs : N) (ob : outboard HO),
+  blen HO data <= 2 ^ 63 -> bs <= 10 -> ob_root ob = root_hash HO data ->
+  forall q : ranges, wf_ranges q = true ->
+  ob_tree ob = mkTree (blen HO data) bs -> loads_ok HO ob (blen HO data) bs ->
+  2 <= sp_blocks (blen HO data) bs ->
+  (forall ga, ga < sp_blocks (blen HO data) bs -> path_true HO data bs ob ga) ->
+  valid_outboard_ranges HO ob q =
+  (flat_map (fun ga => if touchedb q (blen HO data) bs ga
+                       then [(grp_start bs ga, grp_end (blen HO data) bs ga)] else [])
+            (chunk_range_list 0 (sp_blocks (blen HO data) bs)), Ok tt).
+Proof. exact outboard_intact_complete. Qed.
+Print Assumptions C06_outboard_intact_complete.
+
+Theorem C06_sync_eq_fsm : forall (HO : hops) (ob : outboard HO) (d : bytes HO) (q : ranges),
+  (forall nd, load_fsm HO ob nd = load_sync HO ob nd) ->
+  valid_ranges_fsm HO ob d q = valid_ranges HO ob d q.
+Proof. exact valid_ranges_fsm_eq. Qed.
+Print Assumptions C06_sync_eq_fsm.
+
+Theorem C06_sync_eq_fsm_outboard : forall (HO : hops) (ob : outboard HO) (q : ranges),
+  (forall nd, load_fsm HO ob nd = load_sync HO ob nd) ->
+  valid_outboard_ranges_fsm HO ob q = valid_outboard_ranges HO ob q.
+Proof. exact valid_outboard_ranges_fsm_eq. Qed.
+Print Assumptions C06_sync_eq_fsm_outboard.
